@@ -13,6 +13,9 @@ filtered value, `(filter t v).2 ∈ {ok, soft, fatal}` the error class.
 -/
 import Martian.Types
 import Proofs.Types
+import Proofs.TypesRound
+import Proofs.JsonRound
+import Proofs.TypesAgree
 import Gen.Facts
 
 namespace Props.C17
@@ -390,5 +393,143 @@ theorem tmap_shadowed_member :
     dedupLast [(ka, J.str kx), (ka, .num (.int 1))] = [(ka, .num (.int 1))] ∧
     valid (.tmap (.base .int)) (.obj (dedupLast [(ka, .str kx), (ka, .num (.int 1))])) = true :=
   ⟨by decide, rfl, by decide⟩
+
+
+/-! ### 9. numerals as Go reads them (float64 rounding) – the extended model
+
+Everything above decides "integral float" on the exact decimal value of a
+literal.  The code rounds first: `BuiltinType.FilterJson` for `int` parses the
+literal with `strconv.ParseFloat` when `int64` parsing fails and tests/writes
+the ROUNDED value; `float` validation rejects literals beyond the largest
+finite float64.  `Martian.TypesR` (Martian/Types.lean) is the same type model
+over `Num.round64` / `Num.goInt?` / `Num.finite64` (Martian/Json.lean: the
+literal is kept as exact integers mantissa·10^exp, only the rounding the code
+performs is modelled), and the property theorems hold for it verbatim, for ALL
+types and ALL JSON values, with no numeral excluded.  `R.` names below refer to
+`Martian.TypesR`. -/
+section Rounded
+
+/-- filtering is idempotent (rounded numerals): the integer written for a
+numeral is an `int64` literal, which filtering leaves alone -/
+theorem filter_idem_round (t : Ty) (hwf : t.wf = true) (v : J) :
+    (Martian.TypesR.filter t (Martian.TypesR.filter t v).1).1 = (Martian.TypesR.filter t v).1 :=
+  Martian.TypesR.filter_idem t hwf v
+
+/-- filtering changes nothing except dropping undeclared members and rewriting
+a numeral that is no `int64` literal as the integer its float64 rounding is
+(`Drops.int n i : n.goInt? = some i`) -/
+theorem filter_only_drops_round (t : Ty) (v : J) (h : (Martian.TypesR.filter t v).2 ≠ .fatal) :
+    Martian.TypesR.Drops (Martian.TypesR.filter t v).1 v :=
+  Martian.TypesR.filter_drops t v h
+
+/-- clean validation accepts exactly the declared shape, floats being finite in binary64 -/
+theorem valid_iff_shape_round (t : Ty) (v : J) : Martian.TypesR.valid t v = true ↔ Martian.TypesR.Shape t v :=
+  ⟨Martian.TypesR.shape_of_valid t v, Martian.TypesR.valid_of_shape t v⟩
+
+/-- `noHole` is exact for the rounded model as well -/
+theorem filter_valid_of_assignable_iff_round (d s : Ty) (hd : d.wf = true) (hs : s.wf = true)
+    (ha : assignable d s = true) :
+    (∀ v, Martian.TypesR.valid s v = true → Martian.TypesR.valid d (Martian.TypesR.filter d v).1 = true)
+      ↔ noHole d s = true := by
+  constructor
+  · intro h
+    cases hn : noHole d s with
+    | true => rfl
+    | false =>
+      obtain ⟨v, hv1, hv2⟩ := Martian.TypesR.noHole_exact d hd s hs ha hn
+      exact absurd (Martian.TypesR.shape_of_valid _ _ (h v (Martian.TypesR.valid_of_shape _ _ hv1))) hv2
+  · intro hn v hv
+    exact Martian.TypesR.valid_of_shape _ _
+      (Martian.TypesR.shape_filter_of_assignable d hd s v (Martian.TypesR.shape_of_valid _ _ hv) ha hn)
+
+/-- a clean value filters without any error (rounded model) -/
+theorem filter_ok_of_valid_round (t : Ty) (v : J) (h : Martian.TypesR.valid t v = true) :
+    (Martian.TypesR.filter t v).2 = .ok :=
+  Martian.TypesR.filter_ok_of_valid t v h
+
+/-- the integer `FilterJson` writes always fits `int64` -/
+theorem goInt_in_int64 (n : Num) (i : Int) (h : n.goInt? = some i) : Num.inInt64 i = true :=
+  Num.goInt?_inInt64 h
+
+/-- Known finding C17-N3 as theorems about the code's rule (each replayed on the
+real code every run): the value written is the ROUNDED value.
+`9007199254740993.0` (2^53+1) is written as `9007199254740992`;
+`1.0000000000000001` (not an integer) as `1`; `1e-400` as `0`; the integer
+literal `-9223372036854775809` (outside `int64`) as `-9223372036854775808`;
+while `9223372036854775808` and `1.5` are rejected, and `1.0`, `1e3` are exact. -/
+theorem rounding_decides_witnesses :
+    Num.goInt? (.flt 90071992547409930 (-1)) = some 9007199254740992
+    ∧ Num.goInt? (.flt 10000000000000001 (-16)) = some 1
+    ∧ Num.goInt? (.flt 1 (-400)) = some 0
+    ∧ Num.goInt? (.int (-9223372036854775809)) = some (-9223372036854775808)
+    ∧ Num.goInt? (.int 9223372036854775808) = none
+    ∧ Num.goInt? (.flt 15 (-1)) = none
+    ∧ Num.goInt? (.flt 10 (-1)) = some 1
+    ∧ Num.goInt? (.flt 1 3) = some 1000 := by
+  decide +kernel
+
+/-- … and this is what `filter` at `int` does with them (error classes) -/
+theorem rounding_filter_classes :
+    (Martian.TypesR.filter (.base .int) (.num (.flt 90071992547409930 (-1)))).2 = .soft
+    ∧ (Martian.TypesR.filter (.base .int) (.num (.int (-9223372036854775809)))).2 = .soft
+    ∧ (Martian.TypesR.filter (.base .int) (.num (.int 9223372036854775808))).2 = .fatal
+    ∧ (Martian.TypesR.filter (.base .int) (.num (.flt 15 (-1)))).2 = .fatal
+    ∧ (Martian.TypesR.filter (.base .int) (.num (.int 7))).2 = .ok := by
+  decide +kernel
+
+/-- … where the exact-decimal model above says otherwise (the two models
+differ only on numerals that are not `Num.exact64`) -/
+theorem exact_model_differs_on_rounding :
+    (Num.flt 90071992547409930 (-1)).intValue? = some 9007199254740993
+    ∧ (Num.flt 10000000000000001 (-16)).intValue? = none
+    ∧ Num.exact64 (.flt 90071992547409930 (-1)) = false
+    ∧ Num.exact64 (.flt 10000000000000001 (-16)) = false
+    ∧ Num.exact64 (.flt 10 (-1)) = true := by decide +kernel
+
+/-- float range: `1e309` is no float (`ParseFloat`: `ErrRange`), the largest
+finite float64 and a subnormal are; an `int64` integer is a float -/
+theorem float_range_witnesses :
+    Martian.TypesR.valid (.base .float) (.num (.flt 1 309)) = false
+    ∧ Martian.TypesR.valid (.base .float) (.num (.flt 17976931348623157 292)) = true
+    ∧ Martian.TypesR.valid (.base .float) (.num (.flt 17976931348623159 292)) = false
+    ∧ Martian.TypesR.valid (.base .float) (.num (.flt 49 (-325))) = true
+    ∧ Martian.TypesR.valid (.base .float) (.num (.int 9223372036854775807)) = true := by decide +kernel
+
+/-- non-vacuity: a soft filtering in the rounded model that drops a member and rewrites a numeral -/
+example : (Martian.TypesR.filter tA (.obj [(kx, .null), (ka, .num (.flt 90071992547409930 (-1)))])).2
+    = .soft := by decide +kernel
+
+/-- The two models differ ONLY through rounding: on a float-syntax literal that
+is exactly a float64 value (`Num.exact64`, a decidable predicate on the exact
+mantissa/exponent) the decision the code makes on the rounded value is the
+decision of exact decimal arithmetic (`intValue?` + `int64` range) … -/
+theorem goInt_exact_of_exact64 (m e : Int) (h : Num.exact64 (.flt m e) = true) :
+    Num.goInt? (.flt m e) = match (Num.flt m e).intValue? with
+      | some i => if Num.inInt64 i then some i else none
+      | none => none :=
+  Num.goInt?_of_exact_flt m e h
+
+/-- … and therefore validation and filtering in the two models coincide – verdict,
+filtered value, error class, for every type – on every JSON value all of whose
+numerals are float64 values.  So every theorem of sections 1–8 is a theorem
+about the code's behaviour on such values, and section 9 covers the rest. -/
+theorem models_agree_on_exact_numerals (t : Ty) (v : J) (h : Martian.TypesR.NumsExact v) :
+    Martian.TypesR.filter t v = filter t v ∧ Martian.TypesR.check t v = check t v :=
+  ⟨Martian.TypesR.filter_agree t v h, Martian.TypesR.check_agree t v h⟩
+
+/-- non-vacuity: `{"a": 1.0, "x": [0.5, 1e22, 9007199254740992]}` has exact numerals only -/
+example : Martian.TypesR.NumsExact (.obj [(ka, .num (.flt 10 (-1))),
+    (kx, .arr [.num (.flt 5 (-1)), .num (.flt 1 22), .num (.int 9007199254740992)])]) := by
+  refine .obj _ ?_
+  intro kv hkv
+  simp only [List.mem_cons, List.not_mem_nil, or_false] at hkv
+  rcases hkv with rfl | rfl
+  · exact .num _ (by decide +kernel)
+  · refine .arr _ ?_
+    intro x hx
+    simp only [List.mem_cons, List.not_mem_nil, or_false] at hx
+    rcases hx with rfl | rfl | rfl <;> exact .num _ (by decide +kernel)
+
+end Rounded
 
 end Props.C17
